@@ -97,6 +97,19 @@ func appendSites(f *ssa.Function, acc ssa.Value) []*ssa.Call {
 					}
 				}
 			}
+		case *ssa.Extract:
+			// one of several results of a private helper: the list it returns at that position
+			if cl, ok := x.Tuple.(*ssa.Call); ok {
+				if pr := core.Active; pr != nil {
+					if h := cl.Common().StaticCallee(); pr.PrivateHelper(h) {
+						for _, r := range core.Returns(h) {
+							for _, o := range core.ReturnOperand(r, x.Index) {
+								grow(o)
+							}
+						}
+					}
+				}
+			}
 		case *ssa.Parameter:
 			if pr := core.Active; pr != nil && pr.PrivateHelper(x.Parent()) {
 				if _, isSlice := x.Type().Underlying().(*types.Slice); isSlice {
@@ -566,9 +579,9 @@ func runUnsat(c *Ctx) {
 		return
 	}
 	runsat := rfields["Args"]
-	for _, ci := range core.Calls(res) {
+	for _, ci := range p.RegionCalls(res) {
 		if ci.Common().StaticCallee() == exec {
-			ok := lenPositive(core.Lits(core.Guards(ci.Block())), runsat, false)
+			ok := lenPositive(p.ILits(ci.Block()), runsat, false)
 			c.R.Add("UNSAT-U7", "resolver|execute-only-when-none-unsatisfied", "resolver", p.InstrPos(ci), ok,
 				"converters execute only after all paths were planned and none was found unsatisfied", fmt.Sprintf("ok=%v", ok))
 		}
